@@ -1,5 +1,6 @@
 SPECIFICATION SwSpec
 CONSTANTS
+  WithFeeGrant = FALSE
   FailingGov = FALSE
   MaxHeight = 8
   MaxTx = 16
